@@ -1,0 +1,19 @@
+//go:build verif
+
+package v2
+
+import (
+	"github.com/go-openapi/runtime/middleware"
+
+	alert_ops "github.com/prometheus/alertmanager/api/v2/restapi/operations/alert"
+)
+
+// VerifPostAlerts calls the POST /api/v2/alerts operation handler directly (no JSON transport).
+func (api *API) VerifPostAlerts(params alert_ops.PostAlertsParams) middleware.Responder {
+	return api.postAlertsHandler(params)
+}
+
+// VerifGetAlerts calls the GET /api/v2/alerts operation handler directly (no JSON transport).
+func (api *API) VerifGetAlerts(params alert_ops.GetAlertsParams) middleware.Responder {
+	return api.getAlertsHandler(params)
+}
